@@ -19,8 +19,8 @@ e) revocation is visible to the next request: user_ops::revoke_key returns Ok on
 (g) only key creation activates a key: every User / UserKey record built in engine::auth whose secret_key is copied from an existing record takes `active` from that same record (or sets it false: revocation);
 a constant true next to a copied secret re-activates a revoked key on the next permission update.
 """
-FLOOR = 20
-REQUIRED = ["C13.a", "C13.b1", "C13.b2", "C13.b3", "C13.c", "C13.d", "C13.e", "C13.f", "C13.g", "C13.h", "C13.i", "C13.j", "C13.k", "C13.l", "C13.m"]
+FLOOR = 17
+REQUIRED = ["C13.a", "C13.b1", "C13.b2", "C13.b3", "C13.c", "C13.d", "C13.e", "C13.f", "C13.g", "C13.h", "C13.i", "C13.j", "C13.k", "C13.l", "C13.m", "C13.n"]
 
 GATES = r"(tcp::listener::check_auth|http::dispatcher::check_auth_with_headers|Connection::check_auth|AuthManager::validate_session_token)(::\{closure#0\})?$"
 MAPT = re.compile(NEXT_TRANSPARENT.pattern[:-2] + r"|(std|core)::option::Option::<T>::(map|and_then))$")
@@ -282,8 +282,10 @@ def run(ctx):
                    "CreateUser", "RevokeKey", "ListUsers", "GrantPermission", "RevokePermission", "ShowPermissions"}
     EXEMPT = {"Ping": "no data access"}
 
-    def handler_guarded(hb, sinks_re):
-        """K2: every sink in handler body hb is cut from entry by a permission-check/bypass/no-auth edge"""
+    def handler_guarded(hb, sinks_re, sink_blocks=None, coll_params=()):
+        """K2: every sink in handler body hb is cut from entry by a permission-check/bypass/no-auth edge.
+        sink_blocks: blocks to protect instead of the calls matching sinks_re; coll_params: parameters of hb that
+        are known (from its call site) to hold the command's event types."""
         perm = hb.find_calls(PERM)
         if not perm:
             return ["no permission check call"], []
@@ -330,6 +332,8 @@ def run(ctx):
                     for o in hb.origins({"c": [l_]}):
                         if o[0] in ("upvar", "param") and len(o) > 2 and ".command" in o[2]:
                             fields.add(o[2][-1])
+                        if o[0] in ("param", "upvar") and o[1] in coll_params:
+                            fields.add(".event_type")
                 for e in hb.calls:
                     if e.cleanup or not e.nname.endswith("Extend>::extend") or not (hb._origin_locals(e.args[0]) & coll):
                         continue
@@ -351,6 +355,13 @@ def run(ctx):
                     cut = cut + none
                 else:
                     probs.append("the permission loop iterates a collection that does not hold the command's event type")
+        if sink_blocks is not None:
+            seen = hb.reach(0, cut_edges=cut)
+            for sbb in sink_blocks:
+                if sbb in seen:
+                    probs.append("the 'no refusal' return at %s is reachable without a permission decision" % sp(hb, sbb))
+            handler_guarded.covered = covered
+            return probs, perm
         sinks = hb.find_calls(sinks_re)
         if not sinks:
             probs.append("no data-access sink /%s/ found" % sinks_re)
@@ -360,6 +371,70 @@ def run(ctx):
                 probs.append("sink %s reachable without a permission decision" % s.nname.split("::")[-1])
         handler_guarded.covered = covered
         return probs, perm
+
+    def arm_gate(d, blocks, hcalls, v):
+        """A dispatcher arm may decide the permission itself before calling a handler that never sees the identity:
+        a crate function G(event types, .., auth_manager, user_id) -> Option<refusal> whose `None` result is the only way
+        to the handler. Returns None if such a gate exists and is sound, a list of problems if one exists and is not,
+        [] if there is no gate at all."""
+        for g in d.calls:
+            if g.bb not in blocks or g.cleanup or not g.callee or not F.has(g.callee) or g in hcalls:
+                continue
+            has_u = has_m = False
+            ev_params = []
+            Gouter = F.fn_exact(g.callee)
+            G = F.fn_exact(g.callee + "::{closure#0}") if F.has(g.callee + "::{closure#0}") else Gouter
+            for idx, a_ in enumerate(g.args):
+                L = d.origins(a_)
+                if has_origin(L, "upvar", "user_id") or has_origin(L, "param", "user_id"):
+                    has_u = True
+                if any(l[0] in ("upvar", "param") and l[1] == "auth_manager" for l in L):
+                    has_m = True
+                prov = set()
+                locs_ = set(wide_all(d, a_))
+                # what is pushed / extended into the collection before the call
+                for pc in d.calls:
+                    if pc.cleanup or not re.search(r"Vec::push$|Extend>::extend$|Vec::extend\w*$|Vec::insert$", norm_path(pc.nname)) or not pc.args:
+                        continue
+                    if d._origin_locals(pc.args[0]) & locs_:
+                        for a2 in pc.args[1:]:
+                            locs_ |= set(wide_all(d, a2))
+                for l_ in locs_:
+                    for o in d.origins({"c": [l_]}):
+                        if o[0] in ("upvar", "param") and o[1] == "cmd" and len(o) > 2 and any(x in o[2] for x in (".event_type", ".queries")):
+                            prov.add(o[2][-1])
+                if prov:
+                    ev_params.append(Gouter.local_name(idx + 1))
+            if not (has_u and has_m):
+                continue
+            probs = []
+            if not ev_params:
+                probs.append("the gate %s is not given the command's event type(s)" % g.nname.split("::")[-1])
+            # only the None result proceeds to the handler
+            ne = []
+            for i_, si_ in result_switches(d, g):
+                for t_ in edges_for_variant(si_, "None"):
+                    ne.append((i_, t_))
+            for hc in hcalls:
+                if not ne or not any(d.dominates_edge(e, hc.bb) for e in ne):
+                    probs.append("%s is reachable without the gate %s having answered 'no refusal'" % (hc.nname.split("::")[-1], g.nname.split("::")[-1]))
+            # inside the gate: every `None` it returns lies behind a decision
+            nones = [bb for (bb, j, vv, dst) in G.aggregates("option::Option", "None") if dst == [0]]
+            for c_ in G.calls:
+                if not c_.cleanup and c_.dest == [0] and re.search(r"FromResidual.*::from_residual$|from_residual$", c_.nname):
+                    # `x?` on an Option: only the absent auth manager may end the gate this way
+                    br = [b_ for b_ in G.calls if not b_.cleanup and re.search(r"Try>::branch$|Try::branch$", b_.nname) and G.can_reach(b_.bb, c_.bb)]
+                    if not br or not all(any(l[0] in ("param", "upvar") and l[1] == "auth_manager" for l in G.origins(b_.args[0])) for b_ in br):
+                        probs.append("the gate %s returns 'no refusal' through `?` on something else than the auth manager" % g.nname.split("::")[-1])
+            if not nones:
+                probs.append("the gate %s has no explicit 'no refusal' return to protect" % g.nname.split("::")[-1])
+            gp, perm = handler_guarded(G, None, sink_blocks=nones, coll_params=tuple(ev_params))
+            probs += ["gate %s: %s" % (g.nname.split("::")[-1], x) for x in gp]
+            want = "can_read"
+            if perm and not any(p.nname.endswith(want) for p in perm):
+                probs.append("gate %s checks %s, expected %s" % (g.nname.split("::")[-1], [p.nname.split("::")[-1] for p in perm], want))
+            return None if not probs else probs
+        return []
 
     def c(inst):
         d = F.fn("command::dispatcher::dispatch_command")
@@ -392,6 +467,14 @@ def run(ctx):
             names = sorted({hc.nname.split("handlers::")[-1] for hc in hcalls})
             inst.sites.append("%s -> %s user_id=%s auth=%s" % (v, names, gets_user, gets_mgr))
             if v in NEEDS_CHECK and not (gets_user and gets_mgr):
+                gp = arm_gate(d, blocks, hcalls, v)
+                if gp is None:
+                    inst.sites.append("%s: read check in the dispatcher arm (gate function) precedes the handler" % v)
+                    continue
+                if gp:
+                    for p_ in gp:
+                        bad.append(("arm-gate-unsound:%s" % v, "Command::%s: %s" % (v, p_), None))
+                    continue
                 bad.append(("unchecked-arm:%s" % v, "Command::%s is dispatched to %s without the authenticated identity: no permission check can apply" % (v, names), None))
                 continue
             if v in SINKS:
@@ -846,3 +929,26 @@ def run(ctx):
                         bad.append(("auth-manager-dropped-on-error", "FrontendContext.auth_manager can be %s, chosen when a start-up step failed: every gate treats a missing manager as \"authentication not configured\" and lets the request through" % fmt_leaves({l}), sp(b, bb)))
         return bad
     ctx.run("C13.m", "K7 PROV", "FrontendContext::from_config", "a start-up failure never leaves the front end without its auth manager", m_)
+
+    def n_(inst):
+        # the wildcard event type "*" stands for every defined type: whoever asks can_read has to expand it
+        # (an entry named "*" does not exist, so the literal falls back to the role and skips explicit denials)
+        bad, n = [], 0
+        for k in F.keys():
+            if k.startswith("bin:") or "_test" in k or "::tests::" in k or not norm_path(k).startswith("command::"):
+                continue
+            b = F.fn_exact(k)
+            if not b.find_calls(r"AuthManager::can_read$"):
+                continue
+            n += 1
+            fam = [b] + [F.fn_exact(k2) for k2 in F.keys() if k2.startswith(k + "::{closure#")]
+            star = any(not c_.cleanup and re.search(r"::(eq|ne)$", c_.nname) and any(l[0] == "const" and l[1].strip('"') == "*" for a_ in c_.args for l in fb.origins(a_)) for fb in fam for c_ in fb.calls)
+            expand = any(fb.find_calls(r"SchemaRegistry::get_all$") for fb in fam)
+            short = norm_path(k).split("::{closure")[0]
+            inst.sites.append("%s: wildcard test=%s registry expansion=%s" % (short, star, expand))
+            if not (star and expand):
+                bad.append(("wildcard-checked-literally:%s" % short.split("::")[-1], "%s asks can_read about the event type as written: for the wildcard \"*\" the answer is the role's, an explicit denial of one type is skipped and the rows of every type are returned" % short, None))
+        if n < 1:
+            raise AnchorMissing("read-permission sites in command:: (%d; 2 counted: QUERY handler, dispatcher gate)" % n)
+        return bad
+    ctx.run("C13.n", "K10 READS", "can_read sites (QUERY handler, dispatcher gate)", "the wildcard event type is expanded before read permission is asked", n_)
